@@ -277,6 +277,68 @@ func c06Check1(k c06Case) (string, string) {
 				return k.Kind + "-roundtrip", fmt.Sprintf("GetFrom after AddTo(%v:%d, tid %x, attr %#x) = %v:%d err %v", net.IP(k.IP), k.Port, k.TID, k.Attr, gotIP, gotPort, gerr)
 			}
 		}
+		// (v) the same read from inside a ForEach callback, and with other address-shaped attributes (the RFC 3489
+		// ones included) carrying a different address in front of it: a getter reads ITS attribute of THIS message
+		{
+			decoyIP := []byte{198, 51, 100, 7}
+			var attrs []ref.EncodeAttr
+			for _, dt := range []uint16{0x0001, 0x0004, 0x0005, 0x0020, 0x0012, 0x8023, 0x802b, 0x802c} {
+				if dt == k.Attr {
+					continue
+				}
+				dv := ref.EncodeMappedAddress(ref.Addr{IP: decoyIP, Port: 9})
+				if dt == 0x0020 || dt == 0x0012 {
+					dv = ref.EncodeXORMappedAddress(ref.Addr{IP: decoyIP, Port: 9}, tid)
+				}
+				attrs = append(attrs, ref.EncodeAttr{Type: dt, Value: dv})
+			}
+			attrs = append(attrs, ref.EncodeAttr{Type: k.Attr, Value: wantVal})
+			d, derr := decodeCopy(ref.Encode(ref.TypeWord(1, 2), tid, attrs))
+			if derr != nil {
+				return k.Kind + "-redecode", derr.Error()
+			}
+			read := func(mm *stun.Message) (net.IP, int, error) {
+				if k.Kind == "xor" {
+					var g stun.XORMappedAddress
+					e := g.GetFromAs(mm, at)
+					return g.IP, g.Port, e
+				}
+				switch at {
+				case stun.AttrAlternateServer:
+					var g stun.AlternateServer
+					e := g.GetFrom(mm)
+					return g.IP, g.Port, e
+				case stun.AttrResponseOrigin:
+					var g stun.ResponseOrigin
+					e := g.GetFrom(mm)
+					return g.IP, g.Port, e
+				case stun.AttrOtherAddress:
+					var g stun.OtherAddress
+					e := g.GetFrom(mm)
+					return g.IP, g.Port, e
+				}
+				var g stun.MappedAddress
+				e := g.GetFrom(mm)
+				return g.IP, g.Port, e
+			}
+			if ip, port, e := read(d); e != nil || port != k.Port || !bytes.Equal(ip, wantIP) {
+				return k.Kind + "-roundtrip/other-address-attributes-in-front", fmt.Sprintf("attr %#x behind other address attributes: read %v:%d err %v, the message carries %v:%d", k.Attr, ip, port, e, net.IP(wantIP), k.Port)
+			}
+			visited := false
+			var fip net.IP
+			var fport int
+			var ferr error
+			_ = d.ForEach(at, func(mm *stun.Message) error {
+				if !visited {
+					visited = true
+					fip, fport, ferr = read(mm)
+				}
+				return nil
+			})
+			if !visited || ferr != nil || fport != k.Port || !bytes.Equal(fip, wantIP) {
+				return k.Kind + "-roundtrip/inside-ForEach", fmt.Sprintf("attr %#x read from inside a ForEach callback: %v:%d err %v (visited %v), the message carries %v:%d (tid %x)", k.Attr, fip, fport, ferr, visited, net.IP(wantIP), k.Port, k.TID)
+			}
+		}
 		// (iv) the reference decoder reads the library's bytes
 		v, _ := m.Get(at)
 		var ra ref.Addr
